@@ -194,6 +194,26 @@ def run(ck):
             ck.fail(["C14", "token-pair", "%s %s" % (pk, w)], "%r followed by %r across %r is not lexed as %s then %s" % (pt, w, sp, pk, wk),
                     {"cmd": "lex", "text_hex": hexs(text)}, ra[:200], str(["Id", pk, wk, "Semi"]))
     ck.count("punct_then_word", 0, set(ptexts), sample={"text": ptexts[len(ptexts) // 3]})
+    # (1e') every reserved word behind every directive, across every kind of gap (the macro name present, absent, digit-leading, on
+    # the next line, behind tokens that are no words): a reserved word is that keyword wherever it stands
+    dwords = [(w, kw[w]) for w in sorted(kw)]
+    dgaps = [" ", "\n", " /* g */ ", " 4x4\n", " 0abc ", "\n$v = 0b01 ;\n// c\n[{ x }] \"s\" ", " FOO\n", " FOO ", "\t"]
+    dtexts, dmeta = [], []
+    for d_ in ("#define", "#ifdef", "#ifndef", "#else", "#endif", "#"):
+        for g_ in dgaps:
+            for w, wk in dwords:
+                dtexts.append("#define ENABLED\n#ifdef ENABLED\n" + d_ + g_ + w + " ;")
+                dmeta.append((d_, g_, w, wk))
+                dtexts.append(d_ + g_ + w + " ;")
+                dmeta.append((d_, g_, w, wk))
+    da_, _ = core.compare(ck, "directive_then_word", dtexts, lambda s_: "lex %s" % hexs(s_), counted=True)
+    for (d_, g_, w, wk), text, ra in zip(dmeta, dtexts, da_):
+        toks = [x.split(":")[0] for x in ra.split(" ") if x and x.split(":")[0] not in ("Whitespace", "LineComment", "BlockComment", "Eof")]
+        # (the word is the token in front of the final `;` unless the directive switched the rest of the text off)
+        if len(toks) >= 2 and toks[-1] == "Semi" and toks[-2] != wk and toks[-2] in ("Id", "Error"):
+            ck.fail(["C14", "word-after-directive", "%s %s" % (d_, w)], "the reserved word %r behind %r across %r is lexed as %s" % (w, d_, g_, toks[-2]),
+                    {"cmd": "lex", "text_hex": hexs(text)}, ra[-200:], wk)
+    ck.count("directive_then_word", 0, set(dtexts), sample={"text": dtexts[len(dtexts) // 3]})
     # (1f) a signed decimal literal glued to what follows: the sign belongs to the digits and to nothing else - `-4abc` is the literal
     # `-4` and the identifier `abc` (a digit-leading identifier has no sign), `+0x1F` is `+0` and `x1F` (hexadecimal and binary
     # literals are unsigned), a sign without a digit is punctuation
